@@ -555,10 +555,10 @@ class FortranBackend(BaseBackend):
                     "of your network (e.g. remove extrinsic inputs) such that no "
                     "vectorized model parameters exist."
                 )
-            self.add_code_line(f"args({idx}) = {self._var_to_str(p)}  ! {p.name}")
+            self.add_code_line(f"args({idx}) = {self._stpnt_literal(p)}  ! {p.name}")
         for i, var in enumerate(state_vars):
             v = self._var_declaration_info[var]
-            self.add_code_line(f"y({i+1}) = {self._var_to_str(v)}  ! {v.name}")
+            self.add_code_line(f"y({i+1}) = {self._stpnt_literal(v)}  ! {v.name}")
         self.add_linebreak()
         self.add_code_line("end subroutine stpnt")
         self.add_linebreak()
@@ -1163,6 +1163,14 @@ class FortranBackend(BaseBackend):
                         idx = idx_tmp
             return idx + start
         return stop + start
+
+    def _stpnt_literal(self, y: ComputeVar) -> str:
+        """Value of a scalar variable as a Fortran literal of the working precision: a bare `0.3` is a single
+        precision constant and would reach the double precision PAR/U arrays as 0.300000011920929."""
+        if y.is_complex or 'float64' not in str(self._float_precision):
+            return self._var_to_str(y)
+        txt = repr(float(np.asarray(y.value).ravel()[0]))
+        return txt.replace('e', 'd') if 'e' in txt else f"{txt}d0"
 
     @staticmethod
     def _var_to_str(y: ComputeVar) -> str:
